@@ -319,6 +319,24 @@ class Tr:
                 return b2, f"(-{c})", t
         if isinstance(node, ast.BinOp):
             return self.binop(node.op, node.left, node.right, env)
+        if isinstance(node, ast.BoolOp) and isinstance(node.op, ast.Or):
+            # `a or b` as a *value*: the first operand that is true, else the last.  Read only for optional objects whose
+            # classes define neither `__bool__` nor `__len__` (`Opt[Obj]`: true exactly when not `None`); for anything
+            # else — numbers, arrays, masks — the truth value is not "is not None" (or not defined at all) and the
+            # expression is refused
+            try:
+                parts = [self.E(v, env) for v in node.values]
+            except Untranslatable:
+                parts = None
+            if parts and all(t == ("Opt", "Obj") for _b, _c, t in parts):
+                if any(b for b, _c, _t in parts[1:]):
+                    raise Untranslatable(f"fallible operand in short-circuit expression {src}")
+                code = parts[-1][1]
+                for _b, c, _t in reversed(parts[:-1]):
+                    code = f"(Py.orObj {c} {code})"
+                return parts[0][0], code, ("Opt", "Obj")
+            if parts and any(isinstance(t, tuple) and t[0] == "Opt" for _b, _c, t in parts):
+                raise Untranslatable(f"truth value of an optional that is not an object in {src}")
         if isinstance(node, (ast.Compare, ast.BoolOp)):
             b, c = self.C(node, env)
             return b, f"(decide ({c}))", "Bool"
@@ -1472,6 +1490,21 @@ def driver_source(specs, status, src_root):
                              '(fromJ (argAt args 3)) (fromJ (argAt args 4)) (fromJ (argAt args 5)) (fromJ (argAt args 6)) '
                              '(fun g h => ((fromJ (argAt args 7)) : List (Nat × Option Nat)).contains (g, h)) '
                              '(fun a b => ((fromJ (argAt args 8)) : List (Nat × Nat)).contains (a, b)) ' + me.replace("K", "9") + ")")
+            continue
+        if spec.get("group") == "Regrid":
+            imports.append(f"import FinamModel.Translated.{spec['lean']}")
+            me = ("(fun a b g1 g2 => Except.ok (((fromJ (argAt args K)) : List ((Option Int × Option Int) × (Option Nat × Option Nat)))"
+                  ".contains ((a, b), (g1, g2))))")
+            if spec["lean"] == "ARegridding__check_and_set_out_mask":
+                cases.append('  | "ARegridding__check_and_set_out_mask" => toJ (Tr.ARegridding__check_and_set_out_mask (fromJ (argAt args 0)) '
+                             '(fromJ (argAt args 1)) (fromJ (argAt args 2)) ' + me.replace("K", "3") + ")")
+            elif spec["lean"] == "ARegridding__get_info":
+                # `a != b` of two grids, `x.crs` (no such attribute / the id of the CRS) as tables from the live objects
+                cases.append('  | "ARegridding__get_info" => toJ (Tr.ARegridding__get_info ' + " ".join(f"(fromJ (argAt args {i}))" for i in range(11))
+                             + ' (fun a b => match a, b with | some x, some y => ((fromJ (argAt args 11)) : List (Nat × Nat)).contains (x, y) | _, _ => false)'
+                               ' (fun g => match g with | none => Except.error Err.other | some k => '
+                               'if ((fromJ (argAt args 12)) : List Nat).contains k then Except.error Err.other '
+                               'else Except.ok ((((fromJ (argAt args 13)) : List (Nat × Nat)).lookup k))) ' + me.replace("K", "14") + ")")
             continue
         if spec.get("group") == "Exchange":
             imports.append(f"import FinamModel.Translated.{spec['lean']}")
